@@ -63,7 +63,10 @@ class VarExpr:
 class BaseInExpr:
     def __init__(self, values):
         self.var, *stringList = values
-        self.values = set(stringList)
+        # Quoted strings are parsed as ConstantString objects
+        self.values = set(
+            s.value if isinstance(s, ConstantString) else s for s in stringList
+        )
 
 
 class InExpr(BaseInExpr):
@@ -87,6 +90,8 @@ class NotInExpr(BaseInExpr):
 class RegexExpr:
     def __init__(self, tokens):
         self.var, expr = tokens
+        if isinstance(expr, ConstantString):
+            expr = expr.value
         self.regex = re.compile(expr)
 
     def __repr__(self):
@@ -103,7 +108,7 @@ class RegexExpr:
         if not value:
             return False
 
-        return self.re.match(value)
+        return self.regex.match(value) is not None
 
 
 class ConstantString:
